@@ -894,13 +894,30 @@ var reBadPath = regexp.MustCompile(`^(.*): (Open|ReadFile)\((.*)\) succeeded, wa
 var reStatLink = regexp.MustCompile(`^(.*): (fs\.Stat|fsys\.Stat)\(\.\.\.\) = `)
 
 type runner struct {
-	c *lib.Ctx
+	c     *lib.Ctx
+	defs  []string // Coq definitions of the trees, shared by all case files
+	model bool     // emit model cases for the current tree (false: oracle only)
 }
 
-func (rn *runner) tree(r *lib.Rng, root *gdir, wellFormed, loopFree bool, label string, nq int) {
+// emit records one operation: a model case, or an oracle-only evaluation.
+func (rn *runner) emit(coq string, js any, key string, nontrivial bool) {
+	if rn.model {
+		rn.c.Case(coq, js, key, nontrivial)
+	} else {
+		rn.c.Eval(js, key, nontrivial)
+	}
+}
+
+func (rn *runner) tree(r *lib.Rng, root *gdir, wellFormed, loopFree bool, label string, nq int, model bool) {
 	c := rn.c
+	rn.model = model
 	b := buildTree(root)
-	coqT := b.coqTree()
+	coqT := fmt.Sprintf("t%d", len(rn.defs))
+	if model {
+		rn.defs = append(rn.defs, fmt.Sprintf("Definition %s : tree := %s.", coqT, b.coqTree()))
+	} else {
+		coqT = fmt.Sprintf("o%d", c.Rng.U64())
+	}
 	js := func(op string, wd wdSpec, name string, extra any) map[string]any {
 		return map[string]any{"tree": root, "op": op, "wd": wd, "name": name, "observed": extra}
 	}
@@ -925,8 +942,8 @@ func (rn *runner) tree(r *lib.Rng, root *gdir, wellFormed, loopFree bool, label 
 	for _, p := range queryPaths(r, root, nq) {
 		o := doOpen(fsys, p)
 		st := doStat(fsys, p)
-		c.Case(lib.App("COpen", coqT, rootWD.coq(), lib.Str(p), o.coq()), js("open", rootWD, p, o), label+"|open|"+coqT+"|"+p, nontrivial)
-		c.Case(lib.App("CStat", coqT, rootWD.coq(), lib.Str(p), st.coq()), js("stat", rootWD, p, st), label+"|stat|"+coqT+"|"+p, nontrivial)
+		rn.emit(lib.App("COpen", coqT, rootWD.coq(), lib.Str(p), o.coq()), js("open", rootWD, p, o), label+"|open|"+coqT+"|"+p, nontrivial)
+		rn.emit(lib.App("CStat", coqT, rootWD.coq(), lib.Str(p), st.coq()), js("stat", rootWD, p, st), label+"|stat|"+coqT+"|"+p, nontrivial)
 		c.Hist("open_result", o.Kind+o.Err)
 		if !wellFormed {
 			continue
@@ -1044,15 +1061,11 @@ func (rn *runner) tree(r *lib.Rng, root *gdir, wellFormed, loopFree bool, label 
 			p = "."
 		}
 		total := len(d.dir.Dirs) + len(d.dir.Files) + len(d.dir.Links)
-		seqs := [][]int{{-1, -1, 1}, {1, 1, 1, 1, 1, 1}, {2, 2, 2, 2, 0, 2}, {total + 1, 1}}
 		rs := []int{}
 		for i := 0; i < 5; i++ {
 			rs = append(rs, lib.Pick(r, []int{-1, 0, 1, 1, 2, 3, 5}))
 		}
-		seqs = append(seqs, rs)
-		if total > 0 {
-			seqs = append(seqs, []int{total, 1, -1})
-		}
+		seqs := [][]int{lib.Pick(r, [][]int{{-1, -1, 1}, {1, 1, 1, 1, 1, 1}, {2, 2, 2, 2, 0, 2}, {total + 1, 1}, {total, 1, -1}}), rs}
 		for _, ns := range seqs {
 			pages, ok, pan := doReadDir(fsys, p, ns)
 			if !ok && !pan {
@@ -1070,7 +1083,7 @@ func (rn *runner) tree(r *lib.Rng, root *gdir, wellFormed, loopFree bool, label 
 			for _, n := range ns {
 				zs = append(zs, lib.Z(int64(n)))
 			}
-			c.Case(lib.App("CReadDir", coqT, rootWD.coq(), lib.Str(p), lib.List(zs), res),
+			rn.emit(lib.App("CReadDir", coqT, rootWD.coq(), lib.Str(p), lib.List(zs), res),
 				js("readdir", rootWD, p, map[string]any{"ns": ns, "pages": pages, "panicked": pan}), label+"|rd|"+coqT+"|"+p+fmt.Sprint(ns), total >= 2)
 			if wellFormed && pan {
 				c.Fail("panic", fmt.Sprintf("ReadDir sequence %v on %q panicked", ns, p), js("readdir", rootWD, p, ns))
@@ -1129,10 +1142,12 @@ func (rn *runner) tree(r *lib.Rng, root *gdir, wellFormed, loopFree bool, label 
 
 	// ---- other working directories (model correspondence; the oracle checks the relocation)
 	for _, d := range dirs {
-		if d.path == "" || !r.Chance(1, 2) {
+		if d.path == "" || !r.Chance(1, 3) {
 			continue
 		}
-		for _, w := range []wdSpec{{"new", d.path}, {"chdir", d.path}, {"new", d.path + "/"}, {"chdir", "./" + d.path + "/../" + filepath.Base(d.path)}} {
+		wds := []wdSpec{{"new", d.path}, {"chdir", d.path}, {"new", d.path + "/"}, {"chdir", "./" + d.path + "/../" + filepath.Base(d.path)}}
+		lib.Shuffle(r, wds)
+		for _, w := range wds[:2] {
 			f2 := w.fs(b)
 			names := []string{".", "..", ""}
 			for _, x := range d.dir.Dirs {
@@ -1146,7 +1161,7 @@ func (rn *runner) tree(r *lib.Rng, root *gdir, wellFormed, loopFree bool, label 
 			}
 			for _, nm := range names {
 				o := doOpen(f2, nm)
-				c.Case(lib.App("COpen", coqT, w.coq(), lib.Str(nm), o.coq()), js("open", w, nm, o), label+"|open|"+coqT+w.coq()+nm, nontrivial)
+				rn.emit(lib.App("COpen", coqT, w.coq(), lib.Str(nm), o.coq()), js("open", w, nm, o), label+"|open|"+coqT+w.coq()+nm, nontrivial)
 				if wellFormed && iofs.ValidPath(nm) {
 					c.Oracle()
 					o0 := doOpen(fsys, d.path+"/"+nm)
@@ -1168,8 +1183,8 @@ func (rn *runner) tree(r *lib.Rng, root *gdir, wellFormed, loopFree bool, label 
 		for _, nm := range []string{"", ".", "a", lib.Pick(r, queryPaths(r, root, 3))} {
 			o := doOpen(f2, nm)
 			st := doStat(f2, nm)
-			c.Case(lib.App("COpen", coqT, w.coq(), lib.Str(nm), o.coq()), js("open", w, nm, o), label+"|open|"+coqT+w.coq()+nm, nontrivial)
-			c.Case(lib.App("CStat", coqT, w.coq(), lib.Str(nm), st.coq()), js("stat", w, nm, st), label+"|stat|"+coqT+w.coq()+nm, nontrivial)
+			rn.emit(lib.App("COpen", coqT, w.coq(), lib.Str(nm), o.coq()), js("open", w, nm, o), label+"|open|"+coqT+w.coq()+nm, nontrivial)
+			rn.emit(lib.App("CStat", coqT, w.coq(), lib.Str(nm), st.coq()), js("stat", w, nm, st), label+"|stat|"+coqT+w.coq()+nm, nontrivial)
 		}
 	}
 
@@ -1206,6 +1221,11 @@ func (rn *runner) tree(r *lib.Rng, root *gdir, wellFormed, loopFree bool, label 
 			}
 		}
 	}
+}
+
+// finish hands the tree definitions to the case files (they are shared by all cases of a tree).
+func (rn *runner) finish() {
+	rn.c.Model("From PlzV Require Import Model.C29.\n"+strings.Join(rn.defs, "\n"), "C29.case", "C29.check")
 }
 
 func isLinkPath(ents []entry, p string) bool {
@@ -1275,7 +1295,8 @@ func main() {
 			Tree *gdir `json:"tree"`
 		}
 		if c.ReadReplay(&replay) && replay.Tree != nil {
-			rn.tree(c.Rng.Fork(), replay.Tree, true, false, "replay", 40)
+			rn.tree(c.Rng.Fork(), replay.Tree, true, false, "replay", 40, true)
+			rn.finish()
 			return
 		}
 
@@ -1283,11 +1304,11 @@ func main() {
 
 		for i, t := range corpusTrees() {
 			wf := i <= 8 // the last three corpus trees are deliberately ill-formed
-			rn.tree(c.Rng.Fork(), t, wf, false, "corpus", 12)
+			rn.tree(c.Rng.Fork(), t, wf, false, "corpus", 10, true)
 		}
 
 		// 1. well-formed trees with only good links: TestFS applies
-		n1 := c.Scale(30, 600)
+		n1, m1 := c.Scale(60, 1500), c.Scale(10, 300) // trees; of which with model cases
 		for i := 0; i < n1; i++ {
 			r := c.Rng.Fork()
 			root := genDir(r, "", 0, genOpts{true, 3, 4})
@@ -1297,10 +1318,10 @@ func main() {
 				fl = append(fl, lib.Pick(r, []string{"good", "good", "todir", "chain"}))
 			}
 			addLinks(r, root, fl)
-			rn.tree(r, root, true, true, "wf-loopfree", 8)
+			rn.tree(r, root, true, true, "wf-loopfree", 6, i < m1)
 		}
 		// 2. well-formed trees with adversarial links
-		n2 := c.Scale(60, 1500)
+		n2, m2 := c.Scale(200, 5000), c.Scale(20, 700)
 		flavours := []string{"good", "todir", "dangling", "escape", "abs", "self", "selfdot", "loop2", "loop3", "chain", "empty", "dot", "viaLink", "weird"}
 		for i := 0; i < n2; i++ {
 			r := c.Rng.Fork()
@@ -1311,10 +1332,10 @@ func main() {
 				fl = append(fl, lib.Pick(r, flavours))
 			}
 			addLinks(r, root, fl)
-			rn.tree(r, root, true, false, "wf-adversarial", 8)
+			rn.tree(r, root, true, false, "wf-adversarial", 6, i < m2)
 		}
 		// 3. ill-formed trees (duplicate names across kinds, missing blobs, missing children): correspondence only
-		n3 := c.Scale(15, 300)
+		n3 := c.Scale(6, 200)
 		for i := 0; i < n3; i++ {
 			r := c.Rng.Fork()
 			root := genDir(r, "", 0, genOpts{false, 2, 3})
@@ -1340,8 +1361,9 @@ func main() {
 					}
 				}
 			}
-			rn.tree(r, root, false, false, "ill-formed", 6)
+			rn.tree(r, root, false, false, "ill-formed", 6, true)
 		}
+		rn.finish()
 	})
 }
 
